@@ -726,15 +726,21 @@ def roundtrip_tie(ctx: Ctx, res: Result, n: int):
             if rng.random() < 0.04:
                 rows_[-1] = rows_[-1][:-1]          # ragged / zero cells: not well formed
             return rows_
-        scs = []
-        for _ in range(rng.choice([0, 1, 1, 2, 3, 5])):
+        def gen_scs(counts):
+            out_ = []
+            for _ in range(rng.choice(counts)):
+                out_.append(gen_sc())
+            return out_
+
+        def gen_sc():
             st = [(rng.choice(steps_kw) if rng.random() < 0.97 else rng.choice(steps_kw).strip(), txt(), table()) for _ in range(rng.choice([0, 1, 2, 3, 4]))]
             exs = []
             if rng.random() < 0.35:
                 for _ in range(rng.choice([1, 1, 2, 3])):
                     tb_ = table() if rng.random() < 0.3 else [[rng.choice(["a", "b c", "", "<x>", "é"]) for _ in range(w2_)] for w2_ in [rng.choice([1, 2, 3])] for _ in range(rng.choice([1, 2, 4]))]
                     exs.append((tags(), rng.choice(d["examples"] if rng.random() < 0.97 else d["scenario"]), txt(), tb_))
-            scs.append((tags(), rng.choice(d["scenario"] + d["scenarioOutline"]), txt(), st, exs))
+            return (tags(), rng.choice(d["scenario"] + d["scenarioOutline"]), txt(), st, exs)
+        scs = gen_scs([0, 1, 1, 2, 3, 5])
         def enc_steps(st):
             enc_st = ""
             for k, x, tb in st:
@@ -742,16 +748,34 @@ def roundtrip_tie(ctx: Ctx, res: Result, n: int):
                 for row_ in tb:
                     enc_st += str(len(row_)) + "\0" + "".join(c_ + "\0" for c_ in row_)
             return enc_st
-        bg_ = ""
-        if rng.random() < 0.4:
+        def gen_bg(p_):
+            if rng.random() >= p_:
+                return ""
             bst = [(rng.choice(steps_kw), txt(), table()) for _ in range(rng.choice([0, 1, 2, 3]))]
             bkw = rng.choice(d["background"] if rng.random() < 0.97 else d["scenario"])
             bnm = txt()
-            if "\0" not in bkw + bnm and not any("\0" in k + x for k, x, _ in bst):
-                bg_ = bkw + "\0" + bnm + "\0" + enc_steps(bst)
-                res.stats["roundtrip_models_with_background"] += 1
-        args = [dn, "".join(t + "\0" for t in ft), fk, fn, bg_]
-        for t_, k_, n_, st, exs in scs:
+            if "\0" in bkw + bnm or any("\0" in k + x for k, x, _ in bst):
+                return ""
+            res.stats["roundtrip_backgrounds"] += 1
+            return bkw + "\0" + bnm + "\0" + enc_steps(bst)
+        bg_ = gen_bg(0.4)
+        rules = []
+        if rng.random() < 0.35 and d.get("rule"):
+            for _ in range(rng.choice([1, 1, 2, 3])):
+                rules.append((tags(), rng.choice(d["rule"] if rng.random() < 0.97 else d["feature"]), txt(), gen_bg(0.3), gen_scs([0, 1, 1, 2, 3])))
+            res.stats["roundtrip_rules"] += len(rules)
+        args = [dn, "".join(t + "\0" for t in ft), fk, fn, bg_, str(len(scs))]
+        # emit: feature scenarios, then per rule its header arguments followed by its scenario groups
+        seq_ = [("sc", x) for x in scs]
+        for rt_, rk_, rn_, rbg_, rscs_ in rules:
+            seq_.append(("rule", ["".join(t + "\0" for t in rt_), rk_, rn_, rbg_, str(len(rscs_))]))
+            seq_ += [("sc", x) for x in rscs_]
+        all_scs = [x for k__, x in seq_ if k__ == "sc"]
+        for kind__, item__ in seq_:
+            if kind__ == "rule":
+                args += item__
+                continue
+            t_, k_, n_, st, exs = item__
             enc_ex = ""
             for et_, ek_, en_, etb_ in exs:
                 enc_ex += str(len(et_)) + "\0" + "".join(t + "\0" for t in et_) + ek_ + "\0" + en_ + "\0" + str(len(etb_)) + "\0"
@@ -761,11 +785,11 @@ def roundtrip_tie(ctx: Ctx, res: Result, n: int):
                 enc_ex = ""
             res.stats["roundtrip_examples_blocks"] += len(exs) if enc_ex else 0
             args += ["".join(t + "\0" for t in t_), k_, n_, enc_steps(st), enc_ex]
-        if any("\0" in x for x in [fk, fn] + [y for t_, k_, n_, st, _e in scs for y in [k_, n_] + [z for p in st for z in p[:2]]]):
+        if any("\0" in x for x in [fk, fn] + [y for t_, k_, n_, st, _e in all_scs for y in [k_, n_] + [z for p in st for z in p[:2]]] + [y for r_ in rules for y in r_[1:3]]):
             continue
-        res.stats["roundtrip_steps_with_table"] += sum(1 for t_, k_, n_, st, _e in scs for p in st if p[2])
-        reqs.append(driver.request("render4", *args))
-        models.append((dn, ft, fk, fn, scs))
+        res.stats["roundtrip_steps_with_table"] += sum(1 for t_, k_, n_, st, _e in all_scs for p in st if p[2])
+        reqs.append(driver.request("render5", *args))
+        models.append((dn, ft, fk, fn, scs, rules))
     outs = driver.batch(reqs) if reqs else []
     n_wf = 0
     for mdl, m_ in zip(models, outs):
@@ -2588,7 +2612,7 @@ PROPS = {
                 rule=GEN_RULE + "plus Unicode soup with surrogates/NUL and all strings ≤ L over a 10-symbol alphabet; non-trivial = any input"),
     "C02": dict(modules=["C02", "C02Tree", "C02Text", "C02Siblings"], run=run_C02, translators=["parser_table", "grammar", "siblings"], exhaustive=True,
                 rule="all line-kind sequences up to length L through the real Parser (stub matcher) vs the grammar reading (Spec.Sentence) and the table model's events; sampled longer ones; real-text documents; non-trivial = accepted"),
-    "C03": dict(modules=["C03", "C03Tree", "C03Parse", "C03Doc", "C03Fields", "C03Roundtrip", "C03Roundtrip2", "C03Roundtrip3", "C03Roundtrip4"], run=run_C03, translators=["parser_table", "dialects"], rule=GEN_RULE + "non-trivial = accepted document"),
+    "C03": dict(modules=["C03", "C03Tree", "C03Parse", "C03Doc", "C03Fields", "C03Roundtrip", "C03Roundtrip2", "C03Roundtrip3", "C03Roundtrip4", "C03Roundtrip5"], run=run_C03, translators=["parser_table", "dialects"], rule=GEN_RULE + "non-trivial = accepted document"),
     "C04": dict(modules=["C04", "C03Doc", "C14ErrorsDoc"], run=run_C04, translators=["parser_table", "dialects"], rule=GEN_RULE + "plus all rows/tag lines ≤ L over the distinguishing classes; non-trivial = any"),
     "C05": dict(modules=["C05", "C03Doc"], run=run_C05, translators=["dialects", "dialects_master"], exhaustive=True,
                 rule="complete enumeration dialect × keyword × role × layout through the real matcher; header spellings; one generated document per dialect; non-trivial = matched"),
